@@ -7,15 +7,21 @@ theories/Bitmap/RBModel.vos theories/Bitmap/RBModel.vok theories/Bitmap/RBModel.
 theories/Bitmap/BAModel.vo theories/Bitmap/BAModel.glob theories/Bitmap/BAModel.v.beautified theories/Bitmap/BAModel.required_vo: theories/Bitmap/BAModel.v theories/Bitmap/BmGen.vo
 theories/Bitmap/BAModel.vio: theories/Bitmap/BAModel.v theories/Bitmap/BmGen.vio
 theories/Bitmap/BAModel.vos theories/Bitmap/BAModel.vok theories/Bitmap/BAModel.required_vos: theories/Bitmap/BAModel.v theories/Bitmap/BmGen.vos
-theories/Bitmap/RBProofs.vo theories/Bitmap/RBProofs.glob theories/Bitmap/RBProofs.v.beautified theories/Bitmap/RBProofs.required_vo: theories/Bitmap/RBProofs.v theories/Bitmap/RBModel.vo theories/Bitmap/BAModel.vo
-theories/Bitmap/RBProofs.vio: theories/Bitmap/RBProofs.v theories/Bitmap/RBModel.vio theories/Bitmap/BAModel.vio
-theories/Bitmap/RBProofs.vos theories/Bitmap/RBProofs.vok theories/Bitmap/RBProofs.required_vos: theories/Bitmap/RBProofs.v theories/Bitmap/RBModel.vos theories/Bitmap/BAModel.vos
-theories/Bitmap/BAProofs.vo theories/Bitmap/BAProofs.glob theories/Bitmap/BAProofs.v.beautified theories/Bitmap/BAProofs.required_vo: theories/Bitmap/BAProofs.v theories/Bitmap/RBModel.vo theories/Bitmap/BAModel.vo
-theories/Bitmap/BAProofs.vio: theories/Bitmap/BAProofs.v theories/Bitmap/RBModel.vio theories/Bitmap/BAModel.vio
-theories/Bitmap/BAProofs.vos theories/Bitmap/BAProofs.vok theories/Bitmap/BAProofs.required_vos: theories/Bitmap/BAProofs.v theories/Bitmap/RBModel.vos theories/Bitmap/BAModel.vos
-theories/Bitmap/GenProofs.vo theories/Bitmap/GenProofs.glob theories/Bitmap/GenProofs.v.beautified theories/Bitmap/GenProofs.required_vo: theories/Bitmap/GenProofs.v theories/Bitmap/RBModel.vo theories/Bitmap/BAModel.vo
-theories/Bitmap/GenProofs.vio: theories/Bitmap/GenProofs.v theories/Bitmap/RBModel.vio theories/Bitmap/BAModel.vio
-theories/Bitmap/GenProofs.vos theories/Bitmap/GenProofs.vok theories/Bitmap/GenProofs.required_vos: theories/Bitmap/GenProofs.v theories/Bitmap/RBModel.vos theories/Bitmap/BAModel.vos
-theories/Properties_C16.vo theories/Properties_C16.glob theories/Properties_C16.v.beautified theories/Properties_C16.required_vo: theories/Properties_C16.v theories/Bitmap/RBModel.vo
-theories/Properties_C16.vio: theories/Properties_C16.v theories/Bitmap/RBModel.vio
-theories/Properties_C16.vos theories/Properties_C16.vok theories/Properties_C16.required_vos: theories/Properties_C16.v theories/Bitmap/RBModel.vos
+theories/Bitmap/FSetLemmas.vo theories/Bitmap/FSetLemmas.glob theories/Bitmap/FSetLemmas.v.beautified theories/Bitmap/FSetLemmas.required_vo: theories/Bitmap/FSetLemmas.v theories/Bitmap/BmGen.vo
+theories/Bitmap/FSetLemmas.vio: theories/Bitmap/FSetLemmas.v theories/Bitmap/BmGen.vio
+theories/Bitmap/FSetLemmas.vos theories/Bitmap/FSetLemmas.vok theories/Bitmap/FSetLemmas.required_vos: theories/Bitmap/FSetLemmas.v theories/Bitmap/BmGen.vos
+theories/Bitmap/BackendOk.vo theories/Bitmap/BackendOk.glob theories/Bitmap/BackendOk.v.beautified theories/Bitmap/BackendOk.required_vo: theories/Bitmap/BackendOk.v theories/Bitmap/BmGen.vo
+theories/Bitmap/BackendOk.vio: theories/Bitmap/BackendOk.v theories/Bitmap/BmGen.vio
+theories/Bitmap/BackendOk.vos theories/Bitmap/BackendOk.vok theories/Bitmap/BackendOk.required_vos: theories/Bitmap/BackendOk.v theories/Bitmap/BmGen.vos
+theories/Bitmap/RBProofs.vo theories/Bitmap/RBProofs.glob theories/Bitmap/RBProofs.v.beautified theories/Bitmap/RBProofs.required_vo: theories/Bitmap/RBProofs.v theories/Bitmap/RBModel.vo theories/Bitmap/FSetLemmas.vo theories/Bitmap/BackendOk.vo
+theories/Bitmap/RBProofs.vio: theories/Bitmap/RBProofs.v theories/Bitmap/RBModel.vio theories/Bitmap/FSetLemmas.vio theories/Bitmap/BackendOk.vio
+theories/Bitmap/RBProofs.vos theories/Bitmap/RBProofs.vok theories/Bitmap/RBProofs.required_vos: theories/Bitmap/RBProofs.v theories/Bitmap/RBModel.vos theories/Bitmap/FSetLemmas.vos theories/Bitmap/BackendOk.vos
+theories/Bitmap/BAProofs.vo theories/Bitmap/BAProofs.glob theories/Bitmap/BAProofs.v.beautified theories/Bitmap/BAProofs.required_vo: theories/Bitmap/BAProofs.v theories/Bitmap/BAModel.vo theories/Bitmap/FSetLemmas.vo theories/Bitmap/BackendOk.vo
+theories/Bitmap/BAProofs.vio: theories/Bitmap/BAProofs.v theories/Bitmap/BAModel.vio theories/Bitmap/FSetLemmas.vio theories/Bitmap/BackendOk.vio
+theories/Bitmap/BAProofs.vos theories/Bitmap/BAProofs.vok theories/Bitmap/BAProofs.required_vos: theories/Bitmap/BAProofs.v theories/Bitmap/BAModel.vos theories/Bitmap/FSetLemmas.vos theories/Bitmap/BackendOk.vos
+theories/Bitmap/GenProofs.vo theories/Bitmap/GenProofs.glob theories/Bitmap/GenProofs.v.beautified theories/Bitmap/GenProofs.required_vo: theories/Bitmap/GenProofs.v theories/Bitmap/BmGen.vo theories/Bitmap/FSetLemmas.vo theories/Bitmap/BackendOk.vo
+theories/Bitmap/GenProofs.vio: theories/Bitmap/GenProofs.v theories/Bitmap/BmGen.vio theories/Bitmap/FSetLemmas.vio theories/Bitmap/BackendOk.vio
+theories/Bitmap/GenProofs.vos theories/Bitmap/GenProofs.vok theories/Bitmap/GenProofs.required_vos: theories/Bitmap/GenProofs.v theories/Bitmap/BmGen.vos theories/Bitmap/FSetLemmas.vos theories/Bitmap/BackendOk.vos
+theories/Properties_C16.vo theories/Properties_C16.glob theories/Properties_C16.v.beautified theories/Properties_C16.required_vo: theories/Properties_C16.v theories/Bitmap/BmGen.vo theories/Bitmap/RBModel.vo theories/Bitmap/BAModel.vo theories/Bitmap/FSetLemmas.vo theories/Bitmap/BackendOk.vo theories/Bitmap/RBProofs.vo theories/Bitmap/BAProofs.vo theories/Bitmap/GenProofs.vo
+theories/Properties_C16.vio: theories/Properties_C16.v theories/Bitmap/BmGen.vio theories/Bitmap/RBModel.vio theories/Bitmap/BAModel.vio theories/Bitmap/FSetLemmas.vio theories/Bitmap/BackendOk.vio theories/Bitmap/RBProofs.vio theories/Bitmap/BAProofs.vio theories/Bitmap/GenProofs.vio
+theories/Properties_C16.vos theories/Properties_C16.vok theories/Properties_C16.required_vos: theories/Properties_C16.v theories/Bitmap/BmGen.vos theories/Bitmap/RBModel.vos theories/Bitmap/BAModel.vos theories/Bitmap/FSetLemmas.vos theories/Bitmap/BackendOk.vos theories/Bitmap/RBProofs.vos theories/Bitmap/BAProofs.vos theories/Bitmap/GenProofs.vos
